@@ -26,6 +26,31 @@ def mk_enforcer(rules=None, default_rule=None, conf=None, **kw):
     return e
 
 
+class debug_logging:
+    """library loggers at DEBUG for the duration (handlers swallow the output): what is logged may change, what is decided may not"""
+    def __enter__(self):
+        import logging
+        self.lg = logging.getLogger('oslo_policy')
+        self.subs = [logging.getLogger(n) for n in ('oslo_policy.policy', 'oslo_policy._checks', 'oslo_policy._external', 'oslo_policy._parser')]
+        self.saved = [(l, l.level, l.propagate) for l in [self.lg] + self.subs]
+        self.disable = logging.root.manager.disable
+        if not self.lg.handlers:
+            self.lg.addHandler(logging.NullHandler())
+        logging.disable(logging.NOTSET)
+        for l in [self.lg] + self.subs:
+            l.setLevel(logging.DEBUG)
+        self.lg.propagate = False
+        return self
+
+    def __exit__(self, *a):
+        import logging
+        logging.disable(self.disable)
+        for l, lv, pr in self.saved:
+            l.setLevel(lv)
+            l.propagate = pr
+        return False
+
+
 def outcome(fn, *a, **k):
     try:
         return ('ret', fn(*a, **k))
@@ -142,6 +167,19 @@ def c03(tier='quick', seed=0):
                     R.case(key + ('do_raise',), None if g_r == want_r else
                            'rules=%r default=%s enforce(%r, roles=%r, do_raise=True) gave %r, expected %r' % (
                                rules_text, dcfg, q, list(roles), g_r, want_r))
+                    if R.full:
+                        return R.d
+                    # and with the library's loggers at DEBUG: the same decision, in both modes
+                    with debug_logging():
+                        got_d = outcome(e.enforce, q, {}, {'roles': list(roles)})
+                        got_dr = outcome(e.enforce, q, {}, {'roles': list(roles)}, True)
+                    g_d = (got_d[0], bool(got_d[1]) if got_d[0] == 'ret' else got_d[1])
+                    g_dr = (got_dr[0], bool(got_dr[1]) if got_dr[0] == 'ret' else got_dr[1])
+                    bad_d = None
+                    if g_d != ('ret', want) or g_dr != want_r:
+                        bad_d = 'rules=%r default=%s enforce(%r, roles=%r) with debug logging on gave %r / %r (do_raise), expected %r / %r' % (
+                            rules_text, dcfg, q, list(roles), g_d, g_dr, ('ret', want), want_r)
+                    R.case(key + ('debug-log',), bad_d)
                     if R.full:
                         return R.d
                     if dchk is not None or not rules_text:
@@ -374,6 +412,34 @@ def c06(tier='quick', seed=0):
     finally:
         _checks.registered_checks.clear()
         _checks.registered_checks.update(saved)
+    # a reference decides as enforcing the name does ALSO when the name is registered with the enforcer but not defined in
+    # its rule store (rules handed over through set_rules are not overlaid with the registered defaults): both deny, or both
+    # follow the default rule
+    import warnings as _w
+    for dflt in (None, '@', '!', 'role:dflt'):
+        for reg_check in ('@', '!', 'role:reg'):
+            for roles in ([], ['reg'], ['dflt']):
+                e = mk_enforcer()
+                with _w.catch_warnings():
+                    _w.simplefilter('ignore')
+                    e.register_default(policy.RuleDefault('svc:get', reg_check))
+                store = {'alias': 'rule:svc:get', 'chain': 'rule:alias', 'neg': 'not rule:svc:get', 'grp': 'role:none or (rule:svc:get and @)'}
+                if dflt is not None:
+                    store['default'] = dflt
+                e.set_rules(policy.Rules.from_dict(store, 'default'), use_conf=False)
+                direct = outcome(e.enforce, 'svc:get', {}, {'roles': roles})
+                d = bool(direct[1]) if direct[0] == 'ret' else direct[1]
+                for nm, neg in (('alias', False), ('chain', False), ('neg', True), ('grp', False)):
+                    got = outcome(e.enforce, nm, {}, {'roles': roles})
+                    g = bool(got[1]) if got[0] == 'ret' else got[1]
+                    want = (not d) if (neg and isinstance(d, bool)) else d
+                    bad = None
+                    if g != want:
+                        bad = ('registered default %r for svc:get, store %r (no overlay), roles %r: enforce(svc:get) decides %r but %s '
+                               'decides %r' % (reg_check, store, roles, d, store[nm], g))
+                    R.case(('registered-not-in-store', dflt, reg_check, tuple(roles), nm), bad)
+                if R.full:
+                    return R.d
     return R.d
 
 
